@@ -7,6 +7,7 @@ package props
 import (
 	"bytes"
 	"fmt"
+	"math"
 	"reflect"
 	"runtime"
 	"sort"
@@ -31,6 +32,7 @@ type CaseC17 struct {
 	Procs      int                    `json:"procs"`
 	Yield      int                    `json:"yield"`                  // Gosched every Yield-th operation
 	SeqViaJSON bool                   `json:"seq_via_json,omitempty"` // the shared MapSeq went through Copy (JSON): float64 sequence numbers
+	NaNList    bool                   `json:"nan_list,omitempty"`     // the shared Map holds NaN and Inf inside a list (what a cast decode with CastNanInf yields): the JSON encoders and Copy fail on it - and must still leave it alone
 	Reapply    bool                   `json:"reapply_opts,omitempty"` // every option setter is called (with the value in force) right before the goroutines start: whatever the library derives from the options is derived concurrently
 	Alias      *AliasSpec             `json:"alias,omitempty"`        // one container object gets a second parent in the shared Map
 	DeepChain  int                    `json:"deep_chain,omitempty"`   // the shared Map is a chain of this many nested single-entry maps (built in the check, not stored)
@@ -120,6 +122,7 @@ func genC17(t *rapid.T) CaseC17 {
 	c.Yield = rapid.IntRange(1, 4).Draw(t, "yield")
 	c.SeqViaJSON = rapid.Bool().Draw(t, "seqviajson")
 	c.Reapply = rapid.Bool().Draw(t, "reapply")
+	c.NaNList = c.Value != nil && rapid.IntRange(0, 7).Draw(t, "nanlist") == 3
 	if c.Value != nil && rapid.IntRange(0, 4).Draw(t, "alias") == 0 {
 		c.Alias = &AliasSpec{Src: rapid.IntRange(0, 30).Draw(t, "asrc"), Dst: rapid.IntRange(0, 30).Draw(t, "adst"), Key: rapid.SampledFrom(shapeKeys).Draw(t, "akey")}
 	}
@@ -338,6 +341,10 @@ func checkC17(c CaseC17, info *Info) *Failure {
 		info.Class("deep chain shared by all goroutines")
 	} else if c.Value != nil {
 		shared = mxj.Map(copyMap(c.Value))
+		if c.NaNList {
+			shared["nanl"] = []interface{}{math.NaN(), 1.0, map[string]interface{}{"i": math.Inf(-1)}, []interface{}{math.Inf(1)}}
+			info.Class("NaN/Inf inside a list of the shared Map")
+		}
 		if c.Alias != nil && applyAlias(shared, *c.Alias, true) {
 			info.Class("shared sub-structure in the shared Map")
 		}
@@ -360,16 +367,19 @@ func checkC17(c CaseC17, info *Info) *Failure {
 		sharedSeq = mxj.MapSeq(cp)
 		info.Class("MapSeq with float64 sequence numbers (after Copy)")
 	}
-	jdoc, _ := shared.Json()
 	snapshot := copyMap(shared)
 	seqSnapshot := copyMap(sharedSeq)
+	jdoc, _ := shared.Json()
+	if !sameValueNaN(map[string]interface{}(shared), snapshot) {
+		return failf("receiver-modified", "Json() changed the Map\nbefore %#v\nafter  %#v", snapshot, shared)
+	}
 
 	// (a) purity, operation by operation (sequential), which also records the expected results
 	want := make([][]string, len(c.Plans))
 	for g := range c.Plans {
 		for _, o := range c.Plans[g] {
 			want[g] = append(want[g], runOpC17(o, shared, sharedSeq, doc, jdoc))
-			if !reflect.DeepEqual(map[string]interface{}(shared), snapshot) {
+			if !sameValueNaN(map[string]interface{}(shared), snapshot) {
 				return failf("receiver-modified", "%s(%q) changed the Map\nbefore %s\nafter  %s", o.Kind, o.Arg, canon(snapshot), canon(map[string]interface{}(shared)))
 			}
 			if !reflect.DeepEqual(map[string]interface{}(sharedSeq), seqSnapshot) {
@@ -379,21 +389,28 @@ func checkC17(c CaseC17, info *Info) *Failure {
 	}
 	// Copy shares no mutable structure
 	cp, cerr := shared.Copy()
+	if c.NaNList {
+		// Copy goes through JSON and fails on NaN: nothing to compare, but the receiver must be what it was
+		if !sameValueNaN(map[string]interface{}(shared), snapshot) {
+			return failf("receiver-modified", "a failing Copy() changed the Map: now %#v", shared)
+		}
+		cp, cerr = mxj.Map(copyMap(c.Value)), nil
+	}
 	if cerr != nil {
 		return failf("copy-error", "%v", cerr)
 	}
-	if canon(map[string]interface{}(cp)) != canon(snapshot) {
+	if !c.NaNList && canon(map[string]interface{}(cp)) != canon(snapshot) {
 		return failf("copy-differs", "Copy() = %s want %s", canon(map[string]interface{}(cp)), canon(snapshot))
 	}
 	scribble(map[string]interface{}(cp))
-	if !reflect.DeepEqual(map[string]interface{}(shared), snapshot) {
+	if !sameValueNaN(map[string]interface{}(shared), snapshot) {
 		return failf("copy-shares-structure", "changing the copy changed the original: %s", canon(map[string]interface{}(shared)))
 	}
 	cp2, _ := shared.Copy()
 	orig2 := mxj.Map(copyMap(snapshot))
 	cp3, _ := orig2.Copy()
 	scribble(map[string]interface{}(orig2))
-	if canon(map[string]interface{}(cp3)) != canon(map[string]interface{}(cp2)) {
+	if !c.NaNList && canon(map[string]interface{}(cp3)) != canon(map[string]interface{}(cp2)) {
 		return failf("copy-shares-structure", "changing the original changed the copy")
 	}
 
@@ -443,7 +460,7 @@ func checkC17(c CaseC17, info *Info) *Failure {
 			}
 		}
 	}
-	if !reflect.DeepEqual(map[string]interface{}(shared), snapshot) || !reflect.DeepEqual(map[string]interface{}(sharedSeq), seqSnapshot) {
+	if !sameValueNaN(map[string]interface{}(shared), snapshot) || !reflect.DeepEqual(map[string]interface{}(sharedSeq), seqSnapshot) {
 		return failf("receiver-modified", "the shared Map/MapSeq changed during the concurrent run")
 	}
 	// classes
@@ -471,3 +488,36 @@ func checkC17(c CaseC17, info *Info) *Failure {
 }
 
 func TestC17(t *testing.T) { runProp(t, "C17", genC17, checkC17) }
+
+// sameValueNaN is reflect.DeepEqual with NaN equal to NaN (a Map that holds NaN is unchanged when it still holds NaN there).
+func sameValueNaN(a, b interface{}) bool {
+	switch x := a.(type) {
+	case map[string]interface{}:
+		y, ok := b.(map[string]interface{})
+		if !ok || len(x) != len(y) {
+			return false
+		}
+		for k, v := range x {
+			w, ok := y[k]
+			if !ok || !sameValueNaN(v, w) {
+				return false
+			}
+		}
+		return true
+	case []interface{}:
+		y, ok := b.([]interface{})
+		if !ok || len(x) != len(y) {
+			return false
+		}
+		for i := range x {
+			if !sameValueNaN(x[i], y[i]) {
+				return false
+			}
+		}
+		return true
+	case float64:
+		y, ok := b.(float64)
+		return ok && (x == y || (math.IsNaN(x) && math.IsNaN(y)))
+	}
+	return reflect.DeepEqual(a, b)
+}
